@@ -24,4 +24,53 @@ mod verif_c03 {
         std::mem::forget(buf);
     }
     //@END
+
+    /// What resolve_edits promises to commit(): it consumes the edits, writes (possibly only a prefix of) the new
+    /// text and map, and RETURNS the size the rewritten text has or would have had - it stops early once that
+    /// exceeds the limit.  Any returned size, any partial output.
+    fn any_resolve(_s: &str, _sm: &Vec<usize>, target: &mut String, tm: &mut Vec<usize>, edits: &mut Vec<edit::ReplaceOp>) -> usize {
+        edits.clear();
+        target.push_str("xy");
+        tm.push(0);
+        tm.push(1);
+        tm.push(3);
+        let sz: usize = kani::any();
+        unsafe { REPORTED = sz };
+        sz
+    }
+
+    static mut REPORTED: usize = 0;
+
+    //@H c03_commit_limit
+    #[kani::proof]
+    #[kani::unwind(6)]
+    #[kani::stub(crate::input_text::buffer::edit::resolve_edits, any_resolve)]
+    fn c03_commit_limit() {
+        let mut buf = InputBuffer::default();
+        buf.reset().push_str("abc");
+        let r0 = buf.start_build();
+        assert!(r0.is_ok());
+        let r = buf.with_editor(|_b, mut ed| {
+            ed.replace_ref(0..1, "q");
+            Ok(ed)
+        });
+        // the size resolve_edits reported is what decides: commit() must not trust the (possibly partial) buffer
+        let reported = unsafe { REPORTED };
+        assert!(r.is_err() == (reported > 65535), "a rewritten text beyond 65,535 bytes is reported as an error, anything else is accepted");
+        match &r {
+            Ok(()) => {
+                assert!(buf.current().len() == 2 && buf.m2o.len() == 3, "an accepted batch is installed");
+            }
+            Err(_) => {
+                assert!(buf.current().len() == 3 && buf.m2o.len() == 4, "a rejected batch leaves text and map as they were");
+            }
+        }
+        // both outcomes must be possible and must be decided by the reported size alone
+        kani::cover!(r.is_ok(), "size within the limit accepted");
+        kani::cover!(r.is_err(), "size beyond 65,535 reported as InputTooLong although the partial buffer is short");
+        std::mem::forget(r);
+        std::mem::forget(r0);
+        std::mem::forget(buf);
+    }
+    //@END
 }
